@@ -440,10 +440,18 @@ fn gen_dec_history<C: RangeCombo>(rng: &mut Rng, w: u32, s: u32, bps: &[(u32, Ve
         let m = mask(s);
         let range = match rng.next() % 5 { 0 => thr, 1 => m, 2 => thr.wrapping_sub(1), _ => rng.bits_biased(s).max(thr) };
         let lower = rng.bits_biased(s);
-        let delta = match rng.next() % 5 { 0 => range.wrapping_sub(1), 1 => range, 2 => range.wrapping_add(1), 3 => 0, _ => if range == 0 { 0 } else { rng.below(range) } };
+        // `maybe_exhausted` compares `point - lower` with `2^(S-W+1) - 1`: hit it exactly, with
+        // the cursor at the end of the data
+        let exh_edge = rng.chance(1, 3);
+        let range = if exh_edge { match rng.next() % 3 { 0 => m, 1 => (2 * thr + 1) & m, _ => rng.bits_biased(s).max((2 * thr + 1) & m) } } else { range };
+        let delta = if exh_edge {
+            (2 * thr).wrapping_sub(rng.below(4)) & m
+        } else {
+            match rng.next() % 5 { 0 => range.wrapping_sub(1), 1 => range, 2 => range.wrapping_add(1), 3 => 0, _ => if range == 0 { 0 } else { rng.below(range) } }
+        };
         let point = lower.wrapping_add(delta) & m;
-        let pos = match rng.next() % 8 { 0 => ws.len() as u128 + 1, _ => rng.below(ws.len() as u128 + 1) };
-        line.push_str(&format!("rawdec {} {:x} {:x} {:x} {:x}", show_list(ws.clone()), pos, lower, range, point));
+        let pos = if exh_edge { ws.len() as u128 } else { match rng.next() % 8 { 0 => ws.len() as u128 + 1, _ => rng.below(ws.len() as u128 + 1) } };
+        line.push_str(&format!("rawdec {} {:x} {:x} {:x} {:x} | exhausted", show_list(ws.clone()), pos, lower, range, point));
     } else {
         line.push_str(&format!("words {}", show_list(ws.clone())));
     }
